@@ -6,17 +6,21 @@ UPDATE_ALL = [func("bt.core.StrategyBase.update", variant=v) for v in ("flat", "
 ID = "C16"
 META = {
     "assumptions": ['A-REAL', 'A-COMM', 'A-T', 'A-IND', 'A-DATA-NONE', 'A-CYTHON', 'A-SOLVER', 'A-ENGINE'],
-    "explanation": 'update proved to flag bankruptcy only at a market-value root whose recomputed value is strictly negative (beyond is_zero) and not already flagged, and never otherwise: every non-flattening exit leaves the flag unchanged and has no negative market-value root value.',
+    "explanation": 'update proved to flag bankruptcy only at a market-value root whose recomputed value is strictly negative (beyond is_zero) and not already flagged, and never otherwise: every non-flattening exit leaves the flag unchanged and has no negative market-value root value; after a liquidation no change stays pending once a child is read (the date's rows are re-recorded); flatten proved to close every priced security child (close-out clause of allocate) and to mark the root stale; setup proved to reset the flag; Backtest.run proved not to run the algos once the flag is set.',
 }
 MANIFEST_ENTRY = {
     "level_text": 'Deductive proof of the flag condition (both directions) on all exits of update.',
-    "level_note": "Reals not floats; liquidation (flatten/close/allocate(-value)) and the terminal behaviour of Backtest.run are not yet under contract.",
+    "level_note": "Reals not floats; flatten is proved for one level of liquidation (sub-strategies without grandchildren), deeper trees rest on the recursive call (A-IND) and on the bounded nested stand-in; float-level behaviour (TOL = 1e-16) only in the bounded stand-in.",
     "technique": "contract-based deductive verification: VCs from the real AST (pyvc) discharged by z3/cvc5; loop invariants with ghost sums; lemmas over contract clauses",
 }
 
 
 def tasks(tier, seed):
+    nb = 120 if tier == "quick" else 1500
     return [
+        dict(kind="custom", module="props.bounded", fn="run_script", script="c16_bankruptcy", seed=seed, n=nb, props=["C16"], params={"nested": False}),
+        dict(kind="custom", module="props.bounded", fn="run_script", script="c16_bankruptcy", seed=seed, n=nb, props=["C16"], params={"nested": True}),
+        dict(kind="custom", module="props.c04_tasks", fn="setup_clauses"),
         func("bt.backtest.Backtest.run"),
         func("bt.core.StrategyBase.flatten"),
         *UPDATE_ALL,
@@ -24,6 +28,13 @@ def tasks(tier, seed):
 
 
 def replay(o):
+    if o.get("replay_inline"):
+        return o["replay_inline"]
     from pyvc.concrete import replay_scenario
 
     return replay_scenario(o)
+
+
+def post(results, tier, seed):
+    b = [r["bounded"] for r in results if r.get("bounded")]
+    return None, dict(bounded_stand_ins=b, bounded_note="real runs on the interpreted scratch copy; never counted in obligations/discharged")
